@@ -91,6 +91,24 @@ fn control(pool: &rayon::ThreadPool, w: usize) -> bool {
     ok.load(SeqCst) == w
 }
 
+/// Size of the pool a dispatcher builds for itself when none was supplied.
+fn default_threads() -> usize {
+    std::env::var("RAYON_NUM_THREADS").ok().and_then(|v| v.parse::<usize>().ok()).filter(|n| *n > 0).unwrap_or_else(|| std::thread::available_parallelism().map(|n| n.get()).unwrap_or(1))
+}
+
+/// The same registrations with the pool attached *after* them (batches included): the inner
+/// dispatchers of batches registered earlier use that pool all the same.
+fn instantiate_pool_last(plan: &Plan, ctx: &Arc<Ctx>, pool: Option<&Pool>) -> shred::DispatcherBuilder<'static, 'static> {
+    let mut b = shred::DispatcherBuilder::new();
+    for it in &plan.items {
+        crate::sys::register(&mut b, it, ctx, None);
+    }
+    if let Some(p) = pool {
+        b.add_pool(p.clone());
+    }
+    b
+}
+
 fn find_wide(l: &Layout, w: usize) -> bool {
     l.stages.iter().any(|s| s.len() >= w) || l.batches.values().flatten().any(|i| find_wide(i, w))
 }
@@ -109,6 +127,8 @@ struct Scenario {
     back_to_back: bool,
     par_only: bool,
     foreign: Option<Pool>,
+    /// the user-supplied pool is attached after all registrations
+    pool_last: bool,
 }
 
 /// One complete scenario on a fresh dispatcher: warm-up history, then `reps` dispatches whose
@@ -139,7 +159,7 @@ fn run_scenario(p: &Scenario) -> (usize, usize) {
         };
         match ctxt {
             Ctxt::Async => {
-                let b = instantiate(&plan, &ctx, use_pool);
+                let b = if p.pool_last { instantiate_pool_last(plan, &ctx, use_pool) } else { instantiate(&plan, &ctx, use_pool) };
                 let mut ad = b.build_async(full_world());
                 ctx.set_mode(Mode::Quiet);
                 for _ in 0..warmup {
@@ -162,7 +182,7 @@ fn run_scenario(p: &Scenario) -> (usize, usize) {
                 );
             }
             _ => {
-                let mut d = instantiate(&plan, &ctx, use_pool).build();
+                let mut d = if p.pool_last { instantiate_pool_last(plan, &ctx, use_pool) } else { instantiate(&plan, &ctx, use_pool) }.build();
                 let world = full_world();
                 ctx.set_mode(Mode::Quiet);
                 for _ in 0..warmup {
@@ -218,6 +238,19 @@ fn case(rng: &mut Rng, rep: &mut Report, case_no: u64, reps: usize) {
     let ctxt = *rng.pick(&[Ctxt::UserPool, Ctxt::UserPool, Ctxt::DefaultPool, Ctxt::BatchInner, Ctxt::Async, Ctxt::DefaultPoolNarrowBatch]);
     let w = if ctxt == Ctxt::DefaultPoolNarrowBatch { w.min(12) } else { w };
     let extra = if ctxt == Ctxt::BatchInner { 1 } else { 0 };
+    // the pool a dispatcher makes for itself has as many threads as RAYON_NUM_THREADS / the
+    // machine says: the default-pool contexts promise nothing beyond that
+    let dt = default_threads();
+    let w = if matches!(ctxt, Ctxt::DefaultPool | Ctxt::DefaultPoolNarrowBatch) { w.min(dt) } else { w };
+    if w < 2 {
+        return;
+    }
+    // user pool attached after the batch was registered, and wider than a default pool would be
+    let pool_last = matches!(ctxt, Ctxt::BatchInner | Ctxt::UserPool | Ctxt::Async) && rng.chance(1, 3);
+    let w = if pool_last && ctxt == Ctxt::BatchInner { (dt + rng.range(1, 4)).min(24) } else { w };
+    if pool_last {
+        rep.metric("pool_attached_after_the_registrations", 1);
+    }
     let pool_size = if rng.chance(1, 2) { w + extra } else { 16usize.max(w + extra) };
     let mut uid = 1u32;
     let prefix = rng.chance(1, 2);
@@ -298,7 +331,7 @@ fn case(rng: &mut Rng, rep: &mut Report, case_no: u64, reps: usize) {
         rep.metric("dispatch_called_from_a_foreign_pool_worker", 1);
     }
     rep.metric("warmup_dispatches", warmup as i64);
-    let sc = Scenario { plan: plan.clone(), ev, reps, pts: pts.clone(), ctxt, pool: use_pool.cloned(), warmup, back_to_back, par_only, foreign: foreign.clone() };
+    let sc = Scenario { plan: plan.clone(), ev, reps, pts: pts.clone(), ctxt, pool: use_pool.cloned(), warmup, back_to_back, par_only, foreign: foreign.clone(), pool_last };
     let first = run_scenario_bounded(&sc);
     if first.is_none() {
         // The dispatch never came back although every wait inside it is bounded (4 s): the
@@ -388,6 +421,12 @@ pub fn run(args: &Args) -> i32 {
         Some(c) => vec![c],
         None => (0..n).collect(),
     };
+    // every other shard runs with a small default pool (configuration: RAYON_NUM_THREADS); pools
+    // that the harness supplies itself are sized explicitly and do not depend on it
+    if args.shard % 2 == 1 && std::env::var("RAYON_NUM_THREADS").is_err() {
+        std::env::set_var("RAYON_NUM_THREADS", "3");
+    }
+    rep.metric_max("default_pool_threads", default_threads() as i64);
     for c in range {
         if rep.time_up() {
             break;
